@@ -76,6 +76,13 @@ PROPS["C08"] = dict(engine="E9", level="exploration",
    level_text="Exhaustive enumeration of the stated operation orders on the real filtered subscriptions/clones with three monitors per node: a consumer flagging any event received while Ready() is open, a goroutine that reads the cache the moment Ready() fires and must see the filtered parent content, and the reference readiness automaton compared at every barrier.",
    design_ref="DESIGN.md 5.8", technique="runtime monitoring: reference readiness automaton + read-at-readiness watcher + event-before-ready monitor, exhaustive over operation orders, stepped and perturbed-unstepped")
 
+PROPS["C10"] = dict(engine="E11", level="exploration",
+   rule="stream lengths L in {0,1,50,99,100,101,250,500} x subsets (7-bit mask, quick: 14 masks per L incl. none/all, thorough: all 128) of stalled consumers at fixed positions of a tree on the root kit {plain leaf under root, leaf under a clone, leaf under a filtered clone, filtered subscription, a whole clone whose subscribers never read, monitor whose handler blocks on a channel, a reader taking one event per virtual second}, next to three healthy readers (root, clone, filtered clone) paced at <=25 in flight; plus the typed path: pod.Controller over the fake server with stalled typed subscriptions (root, clone, filtered) and a typed monitor blocked in OnInitialize. distinct = (path, L, mask); non-trivial = healthy streams compared exactly and every stalled stream drained and checked afterwards.",
+   assumptions=["healthy readers keep their backlog below the buffer (paced by barriers)", "overrun warnings in the log are only used as a coverage floor"],
+   floors={"any": {"healthy-streams-checked": 300, "stalled-streams-checked": 200, "blocked-monitors-checked": 30, "cache-current-checks": 300, "overruns": 100}},
+   level_text="Seeded exploration over (stream length x stalled-subset x position) with exact oracles: every publication completes in bounded virtual time (else bubble deadlock / timeout with goroutine dump), healthy leaves receive the exact published sequence, caches stay current at every barrier, and what a stalled consumer holds afterwards is an in-order subsequence of at least min(L, buffer) events.",
+   design_ref="DESIGN.md 5.10", technique="runtime monitoring: per-leaf sequence checker (exact for healthy, in-order-subsequence + conservation lower bound for stalled), bounded-progress watchdog in virtual time")
+
 ENGINES = {
  "E1": dict(path="harness/engines/e01_cache_test.go", kind="direct drive of the cache actor vs reference model R-cache; exhaustive small universe + random walks"),
  "E4": dict(path="harness/engines/e04_converge_test.go", kind="real controller over fault-injecting fake API server; convergence oracles at virtual-time quiescence"),
@@ -86,5 +93,6 @@ ENGINES = {
  "E7": dict(path="harness/engines/e07_filtered_test.go", kind="filtered subscription/clone trees over root kit or real controller; snapshot oracle at barriers"),
  "E8": dict(path="harness/engines/e08_refilter_test.go", kind="exhaustive Refilter delta check over contents x filter pairs x node variants"),
  "E9": dict(path="harness/engines/e09_ready_test.go", kind="exhaustive readiness-order enumeration on filtered subscriptions/clones"),
+ "E11": dict(path="harness/engines/e11_slow_test.go", kind="stalled/slow consumers at every tree position; healthy vs stalled stream oracles"),
 }
 NA = {}
